@@ -88,6 +88,11 @@ func (e *Engine) isPureMethod(c *ssa.CallCommon) bool {
 // external store only; they are trusted not to modify objects of the program heap.
 func (e *Engine) isStoreMethod(c *ssa.CallCommon) bool {
 	t := c.Value.Type()
+	switch ifaceMethodKey(c) {
+	case "github.com/janelia-flyem/dvid/storage.VersionedCtx.VersionedKeyValue", "github.com/janelia-flyem/dvid/storage.VersionedCtx.GetBestKeyVersion":
+		// resolver entry points: read-only on the program heap (verified: datastore.VersionedCtx.* declare `modifies nothing`)
+		return true
+	}
 	n, ok := t.(*types.Named)
 	if !ok || n.Obj().Pkg() == nil || n.Obj().Pkg().Path() != modPath+"/storage" {
 		return false
